@@ -362,7 +362,6 @@ func main() {
 	if err := os.MkdirAll(*outDir, 0o755); err != nil {
 		panic(err)
 	}
-	genVersion()
 	for _, g := range generators {
 		g()
 	}
